@@ -158,7 +158,9 @@ def judge_groups(ctx, groups, clause_filter, site_of=None, tags_of=None, trace_m
             failing = [c for c in v['v'] if clause_filter(c, v, e)]
             if failing:
                 site = site_of(e, v) if site_of else (e.get('cls') or v['path'])
-                tags = tags_of(g, e, v) if tags_of else {}
+                tags = base_tags(g, e, v)
+                if tags_of:
+                    tags.update(tags_of(g, e, v))
                 ctx.judge(site, failing, tags, {'group': g.name, 'cfg': g.cfg, 'header': g.header(), 'event': e,
                                                 'all_clauses': v['v']},
                           what='path=%s out=%s' % (v['path'], e['out']))
@@ -177,6 +179,41 @@ def judge_groups(ctx, groups, clause_filter, site_of=None, tags_of=None, trace_m
                     log('  canary not rejected: kind=%s path=%s act=%s' % (kind, v['path'], c['act']))
         ctx.events += len(g.events)
     return out
+
+
+def base_tags(g, e, v):
+    """tags every judged event carries (known findings are matched on them whatever check executes the word)"""
+    t = {'enc': v['path'].split(':')[-1], 'arch': g.cfg.get('arch_version') if isinstance(g.cfg, dict) else None}
+    try:
+        t['priv'] = (pre_value(g, e, 'cpsr')[1] & 31) != 16
+        t['sp_aligned'] = pre_sp(g, e) % 4 == 0
+    except Exception:                                  # events without a register file (helper-call traces)
+        pass
+    if t['enc'] == 'CBZ_T1':
+        w = g.meta.get(e['id'], {}).get('word')
+        if w is None:
+            w = _fetched_halfword(g, e)
+        if w is not None:
+            t['imm_nonzero'] = bool(((w >> 9) & 1) << 5 | ((w >> 3) & 31))
+    return t
+
+
+def _fetched_halfword(g, e):
+    """the halfword at the event's PC (from its memory overrides or the group base)"""
+    try:
+        pc = unlimbs(pre_value(g, e, 'R', 'PC'))
+        base = g.header()['h']['base']['mem']
+        ov = {(d, o): b for d, o, b in e['pre'].get('mem', [])}
+        for d, dev in enumerate(base['devs']):
+            b0 = unlimbs(dev['b'])
+            if b0 <= pc < b0 + dev['n'] - 1:
+                off = pc - b0
+                lo = ov.get((d, off), base['base'][d][off])
+                hi = ov.get((d, off + 1), base['base'][d][off + 1])
+                return lo | (hi << 8)
+    except Exception:
+        pass
+    return None
 
 
 def corrupt(e, rnd, new_id, base):
